@@ -127,3 +127,5 @@ extra_text.append("Definition C04_REP_RCLOSE_FIXED : bool := %s.  (* rep.c rep0_
 _rcs = _body(_rp, "rep0_ctx_send", _D + "rep.c")
 extra_text.append("Definition C04_REP_NBSEND_FIXED : bool := %s.  (* rep.c rep0_ctx_send gives the reply slot back when nni_aio_start refuses *)"
                   % ("true" if re.search(r"if\s*\(!nni_aio_start\(aio,\s*rep0_ctx_cancel_send,\s*ctx\)\)\s*\{[^}]*ctx->btrace_len\s*=", _rcs) else "false"))
+extra_text.append("Definition C04_REP_SAIO_FIXED : bool := %s.  (* rep.c rep0_ctx_send refuses (NNG_ESTATE) while ctx->saio is pending, before the reply slot is consumed *)"
+                  % ("true" if re.search(r"nni_mtx_lock\(&s->lk\);\s*if\s*\(ctx->saio\s*!=\s*NULL\)\s*\{[^}]*NNG_ESTATE[^}]*\}\s*len\s*=\s*ctx->btrace_len", _rcs) else "false"))
